@@ -88,6 +88,10 @@ def run(ctx):
                         vh = VH(vh_bin(), locklog=os.path.join(ctx.scratch_root, "lock_vh.log"), env={"VERIF_SHARDS": "2"})
                         continue
                     raise Inconclusive(f"harness died: {e} {e.stderr[-300:]}")
+                if isinstance(r, dict) and r.get("sched_deadlock"):
+                    # every thread of the scenario is blocked on a map lock held by another: no outcome at all
+                    ctx.violation({"kind": "deadlock-under-scheduler", "where": "c09"}, {"detail": str(r.get("detail", ""))[:1500]})
+                    break
                 if "distinct_schedules" not in r:
                     raise Inconclusive(f"harness refused the scenario: {str(r)[:400]}")
                 if r.get("panics"):
